@@ -79,7 +79,10 @@ Definition out_agree (m : outcome fout) (o : outcome fout) : bool :=
 (* one property: environment, position, declaration, what the compiler emitted,
    and (value, the real validator accepts) pairs *)
 Inductive c12case :=
-| C12Case (env : enum_env) (idx : N) (d : prop) (obs : outcome fout) (vals : list (fvalue * bool)).
+| C12Case (env : enum_env) (idx : N) (d : prop) (obs : outcome fout) (vals : list (fvalue * bool))
+(* a whole message: the emitted fields and (one value per field, the real
+   validator raises no violation on any of these fields) *)
+| C12Obj (env : enum_env) (obs : list fout) (msgs : list (list fvalue * bool)).
 
 Definition c12_check (c : c12case) : bool :=
   match c with
@@ -89,4 +92,6 @@ Definition c12_check (c : c12case) : bool :=
       | Ok o => forallb (fun p => Bool.eqb (validate_sem re_class_count (defined_numbers env) o (fst p)) (snd p)) vals
       | _ => true
       end
+  | C12Obj env obs msgs =>
+      forallb (fun p => Bool.eqb (validate_obj re_class_count (defined_numbers env) obs (fst p)) (snd p)) msgs
   end.
